@@ -2,7 +2,7 @@
    Property theorems only; every proof is `exact <lemma>`. *)
 From Coq Require Import List String ZArith NArith Bool.
 From AV Require Import Model.Str Model.Query Model.Ident Model.VTypes Model.Eval Model.CL Model.VerifierLegacy Model.VerifierW3C Model.VCfg Model.VProps Model.CaseV
-  Proofs.C06Proofs.
+  Proofs.C06Proofs Proofs.C06S1 Proofs.C06S2 Proofs.C06S3 Proofs.C06S4 Proofs.C06S5 Proofs.C06S6 Proofs.C04F10 Model.Prover Model.PProps.
 Import ListNotations.
 Open Scope string_scope.
 
@@ -50,16 +50,46 @@ Theorem C06_filter_bound : forall cfg cx id f, f_bind_schema cfg = true -> gathe
            f_schema_version := sc_version sc; f_issuer := cd_issuer cd; f_cred_def_id := id_creddef id |}.
 Proof. exact gather_filter_bound. Qed.
 
-(* PARTIAL: an accepting legacy run evaluated every restriction (of attribute referents that are not
-   self-attested, and of predicate referents) to true on such a filter. The full statement ok_C06
-   (the filter is that of the credential that SIGNED the sub-proof, and the converse "a true
-   restriction never causes rejection") is decided on every case by the correspondence run. *)
-Theorem C06_legacy_restrictions_checked_partial : forall cfg R P cx, verify_legacy cfg R P cx = Accept ->
-  (forall r ai q, In (r, ai) (rq_attrs R) -> ai_restr ai = Some q -> is_self_attested P r ai = false ->
-     exists id f m, gather_filter cfg cx id = ROk f /\ eval cfg m f q = true) /\
-  (forall r pi q, In (r, pi) (rq_preds R) -> pi_restr pi = Some q ->
-     exists id f m, gather_filter cfg cx id = ROk f /\ eval cfg m f q = true).
-Proof. exact legacy_restrictions_checked. Qed.
+(* SOUNDNESS, legacy format, for EVERY request, presentation and context in which distinct credential
+   definitions have distinct ids and distinct keys: if the verifier model accepts, then every restricted
+   referent that is not an (unrestricted) self-attested one is bound to a sub-proof, and its restriction is
+   true -- with Boolean semantics, over the values revealed under the referent -- of the filter of the
+   credential definition WHOSE KEY SIGNED that sub-proof and of the schema that definition was created over
+   (restr_true_legacy, the reference predicate the correspondence evaluates on every case). *)
+Theorem C06_legacy_sound : forall R P cx, creddefs_distinct cx = true ->
+  verify_legacy cfg_fixed R P cx = Accept -> restr_true_legacy R P cx = true.
+Proof. exact c06_legacy_sound. Qed.
+
+(* SOUNDNESS, W3C format: if the verifier model accepts then, for every name of every restricted attribute
+   and for every restricted predicate, some presented credential reveals or holds the attribute / proves the
+   predicate AND the restriction is true of the credential that signed its proof, over the credential's subject *)
+Theorem C06_w3c_sound : forall R P cx, creddefs_distinct cx = true -> case_wf (CW3C R P cx) = true ->
+  verify_w3c cfg_fixed R P cx = Accept -> restr_true_w3c R P cx = true.
+Proof. exact c06_w3c_sound. Qed.
+
+(* COMPLETENESS, legacy format ("a restriction that is true never causes rejection"): if the verifier model
+   accepts the presentation under the request with every restriction removed, and every restriction is true
+   (restr_true_legacy), then it accepts under the request itself -- provided the identifiers name schema and
+   definition consistently (a lying identifier is refused by the restriction stage only), every requested
+   attribute has a name or names, and the request does not mix issuer_id with issuer_did tags (the recorded
+   known finding c06-legacy-mixed-id-did-tags). The W3C converse is NOT a theorem (there the verifier searches
+   for one credential meeting restriction, value and interval together); it is decided per case. *)
+Theorem C06_legacy_complete : forall R P cx,
+  creddefs_distinct cx = true -> ids_bound cx P = true -> req_named R = true ->
+  mixed_legacy_tags (CLegacy R P cx) = false ->
+  verify_legacy cfg_fixed (strip_req R) P cx = Accept -> restr_true_legacy R P cx = true ->
+  verify_legacy cfg_fixed R P cx = Accept.
+Proof. exact c06_legacy_complete. Qed.
+
+(* all hypotheses are met by a prover-built presentation for a request with conjunction, negation, $in and a
+   value restriction; and a restriction that is false of the credential used is refused *)
+Theorem C06_nonvacuous :
+  exists P, create_legacy pcfg_fixed x_req e_cx 7 (pc_sel e_case) (pc_self e_case) = ROk P /\
+    creddefs_distinct e_cx = true /\ ids_bound e_cx P = true /\ req_named x_req = true /\ mixed_legacy_tags (CLegacy x_req P e_cx) = false /\
+    verify_legacy cfg_fixed (strip_req x_req) P e_cx = Accept /\ restr_true_legacy x_req P e_cx = true /\
+    verify_legacy cfg_fixed x_req P e_cx = Accept /\
+    restr_true_legacy y_req P e_cx = false /\ verify_legacy cfg_fixed (strip_req y_req) P e_cx = Accept /\ verify_legacy cfg_fixed y_req P e_cx = Err.
+Proof. exact c06_nonvacuous. Qed.
 
 Print Assumptions C06_boolean_semantics.
 Print Assumptions C06_comparisons_never.
@@ -68,4 +98,7 @@ Print Assumptions C06_value_tag.
 Print Assumptions C06_marker_tag.
 Print Assumptions C06_self_attested_needs_unrestricted.
 Print Assumptions C06_filter_bound.
-Print Assumptions C06_legacy_restrictions_checked_partial.
+Print Assumptions C06_legacy_sound.
+Print Assumptions C06_w3c_sound.
+Print Assumptions C06_legacy_complete.
+Print Assumptions C06_nonvacuous.
